@@ -79,7 +79,11 @@ class ClientConnectionJob(object):
     def denyConnection(self, reason):
         log.warning("client connection was denied: " + reason)
         # return failed handshake
-        self.daemon._handshake(self.csock, denied_reason=reason)
+        try:
+            self.daemon._handshake(self.csock, denied_reason=reason)
+        except Exception as x:
+            # the client may be gone already; this runs in the accept loop and must not terminate it
+            log.warning("error during denied connect/handshake: %s", x)
         self.csock.close()
 
 
